@@ -1758,3 +1758,31 @@ def c06_sites(repo_root, tier):
                     else f"`for .. in {it}` at line {loop.lineno} renders a block or partial per item but is not registered with the loop limit: loops nested in it are checked on their own")
     _ob(obs, "liquid2/site.data-loops.count", n_loops >= 8, f"{n_loops} per-item rendering loops found in node render methods")
     return {"obligations": obs, "samples": [], "trusted": [], "functions": [], "assumptions": ["macros called in a loop inherit the iteration carry through context.copy(carry_loop_iterations=True) (contract of copy)"]}
+
+
+# --------------------------------------------------------------------------- C17 (bounded native probe of error positions)
+@register("C17")
+def c17_probe(repo_root, tier):
+    import json as _json
+    import subprocess
+    import sys as _sys
+    env = dict(os.environ)
+    env["PYTHONPATH"] = repo_root
+    obs = []
+    try:
+        p = subprocess.run([_sys.executable, os.path.join(os.path.dirname(os.path.abspath(__file__)), "probe_c17.py")], capture_output=True, text=True, timeout=120, env=env, cwd=repo_root)
+        line = [l for l in p.stdout.splitlines() if l.startswith("{")]
+        pr = _json.loads(line[-1]) if line else {"error": (p.stderr or p.stdout)[-300:], "violations": [], "checked": 0}
+    except Exception as e:  # noqa: BLE001
+        pr = {"error": f"{type(e).__name__}: {e}", "violations": [], "checked": 0}
+    if pr.get("error"):
+        _ob(obs, "liquid2/bounded.native-error-position-probe", False, f"probe could not run: {pr['error']}", status="unknown", backend="bounded-native")
+    else:
+        bad = pr["violations"]
+        _ob(obs, "liquid2/bounded.native-error-position-probe", not bad,
+            f"{pr['checked']} (text, index) pairs: _error_context reports the line and column the index lies on" if not bad
+            else f"_error_context({bad[0]['text']!r}, {bad[0]['index']}): {bad[0]['outcome']}",
+            witness=None if not bad else {"program": "from pyvc import probe_c17\nr = probe_c17.run()\nVIOLATES = bool(r['violations'])\nOBSERVED = str(r['violations'][:3])\n", "failing": bad[:5]},
+            backend="bounded-native")
+    return {"obligations": obs, "samples": [], "trusted": [], "functions": [], "assumptions": [],
+            "bounded": ["liquid2/bounded.native-error-position-probe: LiquidError._error_context against an independent line/column reference on a fixed set of texts, every index (pyvc/probe_c17.py); bounded, not counted as proved"]}
